@@ -78,13 +78,15 @@ func VerifC02Auth() {
 	// the peer's certificate: for key leafKey, issued by this server's current root / self-issued under the
 	// root's name / issued by a foreign CA; it holds the matching private key or not
 	leafKey := vf.Int("leaf-key", 2, 3)
+	reqKey := vf.Int("request-key", 2, 3) // the certificate key the request will name
 	issuer := vf.Int("leaf-issuer", 0, 2)
 	signer := vf.IfInt(issuer == 0, 0, vf.IfInt(issuer == 1, leafKey, 5))
-	chain := [][]byte{vfNodeLeaf(curTmpl, leafKey, signer, x509.ExtKeyUsageClientAuth)} // the server verifies the leaf against its own pool only
+	// the server verifies the leaf against its own pool only; certificates are public, so any peer can append the
+	// genuine certificate of the key it names in its request behind its own leaf
+	chain := [][]byte{vfNodeLeaf(curTmpl, leafKey, signer, x509.ExtKeyUsageClientAuth), vfNodeLeaf(curTmpl, reqKey, 0, x509.ExtKeyUsageClientAuth)}
 	holds := vf.Bool("holds-leaf-key")
 
 	// the ALPN-carried request: every field is the peer's choice
-	reqKey := vf.Int("request-key", 2, 3)
 	nonce := vf.Bytes("nonce", 32)
 	vf.Assume(len(nonce) == 32)
 	sigKey := vf.Int("nonce-signature-key", -1, 4) // -1: bytes that are no signature at all
